@@ -75,7 +75,7 @@ func init() {
 	vf.Register(&vf.Check{
 		ID:    "C18",
 		Level: "exploration",
-		Rule: "generated primary histories (seeded PRNG) over {insert small/big/multi, update, DDL, delete half/all, incremental_vacuum(n|all), auto_vacuum=FULL shrink at commit, VACUUM, SyncAndWait, Compact(1) with level-0 retention 1ns|1h, Compact(2), Snapshot, EnforceL0RetentionByTime} x {page size, auto_vacuum, checkpoint thresholds}; " +
+		Rule: "generated primary histories (seeded PRNG) over {insert small/big/multi, update, DDL, delete half/all, incremental_vacuum(n|all), auto_vacuum=FULL shrink at commit, VACUUM, SyncAndWait, Compact(1) with level-0 retention 1ns|1h, Compact(1) whose level-1 file becomes visible to the reader one sync and one poll late, Compact(2), Snapshot, EnforceL0RetentionByTime} x {page size, auto_vacuum, checkpoint thresholds}; " +
 			"VFS steps placed between primary operations: Open, VerifPollOnce, poll under a SHARED lock (pending index) + Unlock, SetTargetTime(T from recorded level-0 header timestamps) / poll during time travel / ResetTime, Close; page cache 1 page | 8 pages | default; " +
 			"a quarter of the histories also poll a real SQLite (mattn) connection on the registered VFS, idle and inside a read transaction (logical dump + integrity_check vs the reference image, plus the byte comparison on that file). " +
 			"At every step: FileSize and ReadAt of every page (and three random sub-page ranges) vs image_n from the level-0 archive, n = VFSFile.Pos().TXID, mask page1[18:20] and page1[24:28] only; image_n cross-checked against Restore(TXID=n) while restorable; time travel vs Restore(Timestamp=T). " +
@@ -157,7 +157,7 @@ type harness struct {
 	ctx    context.Context
 	ps     int
 	rep    string
-	client *file.ReplicaClient
+	client *viewClient
 	logger *slog.Logger
 
 	direct *view
@@ -181,9 +181,42 @@ type harness struct {
 	advancedPolls int
 	histShrinks   int
 	ddlN          int
+	hidden        map[fileID]bool // level-1 files not yet visible to the read side
 }
 
 var vfsSeq int64
+
+// viewClient is the read side's replica client. It can withhold a level-1 file
+// that Compact(1) has just written: for the reader this is the schedule in
+// which a compaction that started before a sync becomes visible only after
+// the reader has polled the level-0 file of that sync (compaction is not
+// atomic with respect to syncs and polls).
+type viewClient struct {
+	*file.ReplicaClient
+	h *harness
+}
+
+func (h *harness) newClient() *viewClient {
+	return &viewClient{ReplicaClient: file.NewReplicaClient(h.rep), h: h}
+}
+
+func (c *viewClient) LTXFiles(ctx context.Context, level int, seek ltx.TXID, useMetadata bool) (ltx.FileIterator, error) {
+	itr, err := c.ReplicaClient.LTXFiles(ctx, level, seek, useMetadata)
+	if err != nil || level != 1 || len(c.h.hidden) == 0 {
+		return itr, err
+	}
+	defer itr.Close()
+	var keep []*ltx.FileInfo
+	for itr.Next() {
+		if info := itr.Item(); !c.h.hidden[fileID{1, info.MinTXID, info.MaxTXID}] {
+			keep = append(keep, info)
+		}
+	}
+	if err := itr.Err(); err != nil {
+		return nil, err
+	}
+	return ltx.NewFileInfoSliceIterator(keep), nil
+}
 
 func quiet() *slog.Logger { return slog.New(slog.NewTextHandler(io.Discard, nil)) }
 
@@ -208,9 +241,10 @@ func runCase(run *vf.Run, raw json.RawMessage, dir string) *vf.Result {
 		return res
 	}
 	h := &harness{s: s, res: res, e: e, rng: rng, ctx: context.Background(), ps: s.Cfg.PageSize, rep: e.RepPath,
-		client: file.NewReplicaClient(e.RepPath), logger: quiet(),
+		logger:   quiet(),
 		imgCache: map[int][]byte{}, dumpCache: map[int]*sq.Dump{}, xchecked: map[int]bool{}, hdrCache: map[string]ltx.Header{},
 		seenKeys: map[string]bool{}, cmpTXIDs: map[int]bool{}}
+	h.client = h.newClient()
 	defer h.closeViews()
 
 	if s.Demo != "" {
@@ -229,7 +263,7 @@ func runCase(run *vf.Run, raw json.RawMessage, dir string) *vf.Result {
 		}
 		// closing phase: bring every open view to the end of the history
 		if !h.stop && res.HarnessErr == "" {
-			h.queue = append(h.queue[:0], "w:ins-small", "sync")
+			h.queue = append(h.queue[:0], "unhide", "w:ins-small", "sync")
 			if h.direct != nil {
 				h.queue = append(h.queue, "poll")
 			}
@@ -304,6 +338,11 @@ func (h *harness) gen() {
 	case r < 41:
 		h.queue = append(h.queue, "vacuum", "sync")
 	case r < 49:
+		if h.rng.Intn(4) == 0 && h.direct != nil {
+			// a compaction that becomes visible to the reader one sync and one poll late
+			h.queue = append(h.queue, "compact1:hide", "w:"+[]string{"update", "ins-small", "ins-multi"}[h.rng.Intn(3)], "sync", "poll", "unhide", "poll")
+			return
+		}
 		h.queue = append(h.queue, []string{"compact1:keep", "compact1:del"}[h.rng.Intn(2)])
 	case r < 52:
 		h.queue = append(h.queue, "compact2")
@@ -379,7 +418,7 @@ func (h *harness) next() {
 	case "compact1":
 		if arg == "del" {
 			e.LS.L0Retention = time.Nanosecond
-		} else {
+		} else { // keep | hide
 			e.LS.L0Retention = time.Hour
 		}
 		before := len(oracle.ListLevel(h.rep, 0))
@@ -388,10 +427,23 @@ func (h *harness) next() {
 		e.Logf("Compact(1) l0retention=%s -> %s err=%v; level-0 files %d -> %d", arg, infoStr(info), err, before, after)
 		if err == nil {
 			h.res.Count("compact_l1", 1)
+			if arg == "hide" && info != nil {
+				if h.hidden == nil {
+					h.hidden = map[fileID]bool{}
+				}
+				h.hidden[fileID{1, info.MinTXID, info.MaxTXID}] = true
+				e.Logf("%s is not yet visible to the read side", infoStr(info))
+				h.res.Count("compact_l1_visible_late", 1)
+			}
 		}
 		if after < before {
 			h.res.Count("level0_files_deleted_by_retention", before-after)
 		}
+	case "unhide":
+		if len(h.hidden) > 0 {
+			e.Logf("pending level-1 files become visible to the read side")
+		}
+		h.hidden = nil
 	case "compact2":
 		info, err := e.LS.Compact(h.ctx, 2)
 		e.Logf("Compact(2) -> %s err=%v", infoStr(info), err)
@@ -632,7 +684,7 @@ func (h *harness) pollFacts(v *view, kind string) facts {
 	}
 	m1 := max1
 	for _, fr := range oracle.ListLevel(h.rep, 1) {
-		if fr.Min < max1+1 {
+		if fr.Min < max1+1 || h.hidden[fileID{1, ltx.TXID(fr.Min), ltx.TXID(fr.Max)}] {
 			continue
 		}
 		if fr.Min != m1+1 {
@@ -922,7 +974,7 @@ func (h *harness) compare(v *view, fx facts) bool {
 // direct view
 
 func (h *harness) newFile() *litestream.VFSFile {
-	f := litestream.NewVFSFile(file.NewReplicaClient(h.rep), "db", h.logger)
+	f := litestream.NewVFSFile(h.newClient(), "db", h.logger)
 	f.PollInterval = 24 * time.Hour // the ticker never fires; polls are placed by VerifPollOnce
 	if h.s.Cache > 0 {
 		f.CacheSize = h.s.Cache * h.ps
@@ -1155,7 +1207,7 @@ func (h *harness) sqlOpen() {
 		return
 	}
 	if h.cap == nil {
-		v := litestream.NewVFS(file.NewReplicaClient(h.rep), h.logger)
+		v := litestream.NewVFS(h.newClient(), h.logger)
 		v.PollInterval = 24 * time.Hour
 		if h.s.Cache > 0 {
 			v.CacheSize = h.s.Cache * h.ps
